@@ -24,7 +24,7 @@ func runConc(seed int64, run int, size string, timeout time.Duration) ([]Line, b
 	stopReaders := make(chan struct{})
 	var pmu sync.Mutex
 	pending := map[int]chan string{}
-	subCount := 0
+	subCount, reactions, maxReactions := 0, 0, 4
 
 	jitter := func(r *rand.Rand) {
 		switch r.Intn(4) {
@@ -57,6 +57,17 @@ func runConc(seed int64, run int, size string, timeout time.Duration) ([]Line, b
 					drv("read", ptr(sub), "ev", ev, "flag", "ok")
 					if mode == 1 {
 						time.Sleep(time.Duration(r.Intn(300)) * time.Microsecond)
+					}
+					if r.Intn(8) == 0 && !s.isBlocked() { // the reader publishes in reaction to what it read, as the provider services do
+						pmu.Lock()
+						room := reactions < maxReactions
+						if room {
+							reactions++
+						}
+						pmu.Unlock()
+						if room {
+							s.publish(s.newEvent())
+						}
 					}
 					if r.Intn(6) == 0 { // the reader clones its own subscription, as bidengine's service does
 						pmu.Lock()
